@@ -28,7 +28,6 @@ Proof.
 Qed.
 
 (* ---------- the value ---------- *)
-Definition numstart (c : N) : bool := is_ascii_digit c || N.eqb c 45.
 Lemma digits_num_chars r : forallb is_digit r = true -> forallb num_char r = true.
 Proof. intro H. apply forallb_forall. intros c Hi. unfold num_char. replace (is_ascii_digit c) with true; [reflexivity|]. symmetry. exact (proj1 (forallb_forall _ _) H c Hi). Qed.
 Lemma show_int_shape ng m : exists c body, show_int ng m = c :: body /\ numstart c = true /\ forallb num_char body = true.
@@ -313,3 +312,370 @@ Definition nested_expected : jv :=
       ([105], JAI I8 [(true, 128); (false, 127)]); ([106], JAF [([48; 46; 48], [48; 46; 48]); ([49], [49])]); ([107], JAB [true; false]); ([108], JAN 2)].
 Lemma nested_example_round_trips : exists t, round_trip nested_example = Some (t, RtOk nested_expected).
 Proof. eexists. vm_compute. reflexivity. Qed.
+
+(* ---------- typed arrays: integers of every width ---------- *)
+Lemma digits_no_flags : forall body f tok pt ex mi rest c', forallb is_digit body = true -> (length body < f)%nat ->
+  (c' = 44 \/ c' = 93) ->
+  num_loop f (body ++ c' :: rest) tok pt ex mi = NOk (tok ++ body) c' rest false.
+Proof.
+  induction body as [|d body IH]; intros f tok pt ex mi rest c' Hd Hf Hc.
+  - destruct f as [|f]; [cbn in Hf; lia|]. cbn [app num_loop]. rewrite app_nil_r.
+    destruct Hc as [-> | ->]; reflexivity.
+  - cbn [forallb] in Hd. apply andb_prop in Hd as [Hd0 Hd]. destruct f as [|f]; [cbn in Hf; lia|].
+    assert (Hr : 48 <= d <= 57). { unfold is_digit in Hd0. apply andb_prop in Hd0 as [H1 H2]. apply N.leb_le in H1, H2. lia. }
+    cbn [app num_loop].
+    replace (N.leb 128 d) with false by (symmetry; apply N.leb_gt; lia).
+    replace (N.eqb d 46) with false by (symmetry; apply N.eqb_neq; lia).
+    replace (N.eqb d 101) with false by (symmetry; apply N.eqb_neq; lia).
+    replace (N.eqb d 45) with false by (symmetry; apply N.eqb_neq; lia).
+    replace (N.eqb d 32) with false by (symmetry; apply N.eqb_neq; lia).
+    cbn [andb orb]. change (is_ascii_digit d) with (is_digit d). rewrite Hd0. cbn [orb].
+    rewrite IH by (auto; cbn [length] in Hf; lia). rewrite <- app_assoc. reflexivity.
+Qed.
+
+(* a number token: optional minus, digits *)
+Definition int_token (t : list N) : Prop := exists c body, t = c :: body /\ numstart c = true /\ forallb is_digit body = true.
+Lemma show_int_token ng m : int_token (show_int ng m).
+Proof.
+  destruct (show_N_head m) as (c & r & E & Hc & Hr). unfold show_int. destruct ng.
+  - exists 45, (show_N m). repeat split. apply show_N_digits.
+  - exists c, r. repeat split; [exact E| |exact Hr]. unfold numstart. change (is_ascii_digit c) with (is_digit c). rewrite Hc. reflexivity.
+Qed.
+
+Lemma items_loop_number f t c' rest acc : int_token t -> (length t + length rest < f)%nat -> (c' = 44 \/ c' = 93) ->
+  items_loop (S f) (t ++ c' :: rest) acc =
+  if N.eqb c' 93 then (AOk (acc ++ [t]), rest) else items_loop f rest (acc ++ [t]).
+Proof.
+  intros (c & body & -> & Hc & Hb) Hf Hsep. destruct (numstart_facts c Hc) as (E1 & E2 & E3 & E4 & E5 & E6). destruct (numstart_sig c Hc) as [S1 S2].
+  assert (Hr : (48 <= c <= 57) \/ c = 45).
+  { unfold numstart in Hc. apply orb_prop in Hc as [H|H]; [|apply N.eqb_eq in H; auto]. unfold is_ascii_digit in H. apply andb_prop in H as [H1 H2]. apply N.leb_le in H1, H2. auto. }
+  cbn [app items_loop]. rewrite S1.
+  replace (N.eqb c 93) with false by (symmetry; apply N.eqb_neq; lia).
+  replace (N.eqb c 32) with false by (symmetry; apply N.eqb_neq; lia).
+  unfold QUOTE. rewrite E2, E1, E5, E6, E3, E4.
+  replace (N.eqb c 44) with false by (symmetry; apply N.eqb_neq; lia).
+  unfold numstart in Hc. rewrite Hc.
+  rewrite digits_no_flags by (auto; rewrite app_length; cbn [length]; lia).
+  cbn [app]. destruct Hsep as [-> | ->].
+  - change (N.eqb 44 44) with true. cbn [negb andb orb]. change (N.eqb 44 93) with false. reflexivity.
+  - change (N.eqb 93 44) with false. change (N.eqb 93 13) with false. change (N.eqb 93 10) with false. change (is_ascii_control 93) with false.
+    cbn [negb andb orb]. change (N.eqb 93 93) with true. cbv iota.
+    destruct (is_ascii_digit c); [reflexivity|]. cbn [orb] in Hc. rewrite Hc. reflexivity.
+Qed.
+
+Lemma join_cons2 (sep p q : list N) ps : join sep (p :: q :: ps) = p ++ sep ++ join sep (q :: ps).
+Proof. reflexivity. Qed.
+
+Theorem items_loop_tokens : forall toks acc f, toks <> [] -> Forall int_token toks -> (length (join [44%N] toks) + 1 < f)%nat ->
+  items_loop f (join [44] toks ++ [93]) acc = (AOk (acc ++ toks), []).
+Proof.
+  induction toks as [|t toks IH]; intros acc f Hne Hall Hf; [contradiction|].
+  inversion Hall as [|? ? Ht Hrest]; subst. destruct f as [|f]; [lia|].
+  destruct toks as [|t2 toks].
+  - cbn [join] in *. change (t ++ [93]) with (t ++ 93 :: []). rewrite items_loop_number by (auto; cbn [length]; lia). reflexivity.
+  - rewrite join_cons2 in *. rewrite <- !app_assoc. change ([44] ++ join [44] (t2 :: toks) ++ [93]) with (44 :: (join [44] (t2 :: toks) ++ [93])).
+    rewrite !app_length in Hf. cbn [length] in Hf.
+    rewrite items_loop_number by (auto; rewrite app_length; cbn [length]; lia).
+    change (N.eqb 44 93) with false. cbv iota. rewrite IH by (auto; try discriminate; lia). rewrite <- app_assoc. reflexivity.
+Qed.
+
+Lemma token_low t : int_token t -> forallb (fun x => N.ltb x 128) t = true.
+Proof.
+  intros (c & body & -> & Hc & Hb). cbn [forallb]. destruct (numstart_sig c Hc) as [S1 _].
+  apply N.leb_gt in S1. replace (N.ltb c 128) with true by (symmetry; apply N.ltb_lt; lia). cbn [andb].
+  apply forallb_forall. intros x Hx. pose proof (proj1 (forallb_forall _ _) Hb x Hx) as H. unfold is_digit in H. apply andb_prop in H as [_ H2]. apply N.leb_le in H2. apply N.ltb_lt. lia.
+Qed.
+Lemma join_low toks : Forall int_token toks -> forallb (fun x => N.ltb x 128) (join [44] toks) = true.
+Proof.
+  induction toks as [|t toks IH]; intro H; [reflexivity|]. inversion H as [|? ? Ht Hr]; subst. destruct toks as [|t2 toks].
+  - cbn [join]. apply token_low, Ht.
+  - rewrite join_cons2, !forallb_app, (token_low t Ht), (IH Hr). reflexivity.
+Qed.
+Lemma low_no_high s : forallb (fun x => N.ltb x 128) s = true -> existsb (fun x => N.leb 128 x) s = false.
+Proof.
+  induction s as [|c s IH]; intro H; [reflexivity|]. cbn [forallb] in H. apply andb_prop in H as [Hc H]. cbn [existsb]. rewrite IH by exact H.
+  apply N.ltb_lt in Hc. replace (N.leb 128 c) with false by (symmetry; apply N.leb_gt; lia). reflexivity.
+Qed.
+
+(* the splitter on the text a typed integer writer produces: exactly the decimal tokens, in order *)
+Theorem split_int_array toks : Forall int_token toks -> split_array (arr_text toks) = AOk toks.
+Proof.
+  intro Hall. destruct toks as [|t toks]; [vm_compute; reflexivity|].
+  unfold arr_text, split_array. set (body := join [44] (t :: toks) ++ [93]).
+  assert (Hlow : existsb (fun x => N.leb 128 x) ([91] ++ body) = false).
+  { apply low_no_high. unfold body. rewrite !forallb_app, join_low by exact Hall. reflexivity. }
+  rewrite Hlow. cbn [app open_bracket].
+  assert (Hb : body <> []) by (unfold body; destruct (join [44] (t :: toks)); discriminate).
+  destruct body as [|b0 body'] eqn:Eb; [contradiction|].
+  change (N.leb 128 91) with false. change (negb (ws1 91) && negb (N.eqb 91 91)) with false. change (N.eqb 91 91) with true. cbv iota.
+  rewrite <- Eb. unfold body. rewrite items_loop_tokens; [reflexivity|discriminate|exact Hall|rewrite app_length; cbn [length]; lia].
+Qed.
+
+(* every integer width: what is written is read back *)
+Lemma parse_unsigned_show bound m : bound <= 10 ^ 39 -> m < bound -> parse_unsigned bound (show_N m) = Some m.
+Proof.
+  intros Hb Hm. unfold parse_unsigned. destruct (show_N_head m) as (c & r & E & Hc & Hr). destruct (digit_not_sign c Hc) as [_ H43].
+  assert (Hlt : m < 10 ^ 80). { assert (10 ^ 39 < 10 ^ 80) by (apply N.pow_lt_mono_r; lia). lia. }
+  pose proof (show_N_parses m Hlt) as Hp. rewrite E in *.
+  assert (Hbody : match c :: r with 43 :: r0 => r0 | _ => c :: r end = c :: r).
+  { destruct c as [|p]; [reflexivity|]. do 6 (try destruct p as [p|p|]); try reflexivity. contradiction. }
+  rewrite Hbody, Hp. apply N.ltb_lt in Hm. rewrite Hm. reflexivity.
+Qed.
+Lemma read_int_written w x : width_ok w x = true -> read_int w (show_int (fst x) (snd x)) = RtOk x.
+Proof.
+  destruct x as [ng m]. cbn [fst snd]. intro H. unfold read_int, parse_int.
+  assert (P : forall k, (k <= 128)%N -> 2 ^ k < 10 ^ 39). { intros k Hk. apply N.le_lt_trans with (2 ^ 128); [apply N.pow_le_mono_r; lia|vm_compute; reflexivity]. }
+  destruct w; cbn [width_ok] in H;
+    try (rewrite parse_signed_show by (auto; apply P; lia); reflexivity);
+    (apply andb_prop in H as [Hn Hm]; apply negb_true_iff in Hn; subst ng; apply N.ltb_lt in Hm; unfold show_int;
+     rewrite parse_unsigned_show by (auto; apply N.lt_le_incl, P; lia); reflexivity).
+Qed.
+
+Lemma all_ok_inv {A B} (f : B -> rtres A) (g : A -> B) l : (forall x, In x l -> f (g x) = RtOk x) -> all_ok f (map g l) = RtOk l.
+Proof.
+  induction l as [|x l IH]; intro H; [reflexivity|]. cbn [map all_ok]. rewrite (H x (or_introl eq_refl)), IH by (intros y Hy; apply H; right; exact Hy). reflexivity.
+Qed.
+Theorem int_array_round_trip w xs : forallb (width_ok w) xs = true ->
+  exists t, round_trip (JAI w xs) = Some (t, RtOk (JAI w xs)).
+Proof.
+  intro H. unfold round_trip. cbn [to_json]. eexists. f_equal. f_equal. unfold typed_list.
+  rewrite split_int_array by (apply Forall_forall; intros t Ht; apply in_map_iff in Ht as (x & <- & _); apply show_int_token).
+  cbn [of_ares]. rewrite (all_ok_inv (read_int w) (fun x => show_int (fst x) (snd x))); [reflexivity|].
+  intros x Hx. apply read_int_written. exact (proj1 (forallb_forall _ _) H x Hx).
+Qed.
+
+(* ---------- typed arrays of booleans, nulls and strings ---------- *)
+(* a token the splitter consumes in one iteration, leaving the separator to the next one *)
+Definition simple_token (t : list N) : Prop := forall f rest acc, items_loop (S f) (t ++ rest) acc = items_loop f rest (acc ++ [t]).
+Lemma simple_true : simple_token TRUE_S. Proof. intros f rest acc. reflexivity. Qed.
+Lemma simple_false : simple_token FALSE_S. Proof. intros f rest acc. reflexivity. Qed.
+Lemma simple_null : simple_token NULL_S. Proof. intros f rest acc. reflexivity. Qed.
+Lemma simple_string s : str_ok s = true -> simple_token (34 :: s ++ [34]).
+Proof.
+  intros Hs f rest acc. cbn [app items_loop]. change (N.leb 128 34) with false. change (N.eqb 34 93) with false. change (N.eqb 34 32) with false.
+  change (N.eqb 34 QUOTE) with true. cbv iota. rewrite <- app_assoc. cbn [app]. rewrite read_string_ok by (auto; discriminate). reflexivity.
+Qed.
+
+Theorem items_loop_simple : forall toks acc f, toks <> [] -> Forall simple_token toks -> (2 * length toks < f)%nat ->
+  items_loop f (join [44] toks ++ [93]) acc = (AOk (acc ++ toks), []).
+Proof.
+  induction toks as [|t toks IH]; intros acc f Hne Hall Hf; [contradiction|].
+  inversion Hall as [|? ? Ht Hrest]; subst. cbn [length] in Hf. destruct f as [|[|f]]; [lia|lia|].
+  destruct toks as [|t2 toks].
+  - cbn [join]. rewrite Ht. reflexivity.
+  - rewrite join_cons2. rewrite <- !app_assoc. rewrite Ht.
+    change ([44] ++ join [44] (t2 :: toks) ++ [93]) with (44 :: (join [44] (t2 :: toks) ++ [93])).
+    assert (E : forall r a, items_loop (S f) (44 :: r) a = items_loop f r a) by reflexivity.
+    rewrite E. rewrite IH by (auto; try discriminate; cbn [length] in *; lia). rewrite <- app_assoc. reflexivity.
+Qed.
+
+Lemma split_simple_array toks : Forall simple_token toks -> Forall (fun t => t <> []) toks -> forallb (fun x => N.ltb x 128) (join [44] toks) = true -> split_array (arr_text toks) = AOk toks.
+Proof.
+  intros Hall Hne Hlow. destruct toks as [|t toks]; [vm_compute; reflexivity|].
+  unfold arr_text, split_array. set (body := join [44] (t :: toks) ++ [93]).
+  assert (Hl : existsb (fun x => N.leb 128 x) ([91] ++ body) = false).
+  { apply low_no_high. unfold body. rewrite !forallb_app, Hlow. reflexivity. }
+  rewrite Hl. cbn [app open_bracket].
+  assert (Hb : body <> []) by (unfold body; destruct (join [44] (t :: toks)); discriminate).
+  destruct body as [|b0 body'] eqn:Eb; [contradiction|].
+  change (N.leb 128 91) with false. change (negb (ws1 91) && negb (N.eqb 91 91)) with false. change (N.eqb 91 91) with true. cbv iota.
+  rewrite <- Eb. unfold body. rewrite items_loop_simple; [reflexivity|discriminate|exact Hall|].
+  rewrite app_length. cbn [length].
+  assert (G : forall l : list (list N), Forall (fun t => t <> []) l -> (2 * length l <= length (join [44%N] l) + 1)%nat).
+  { clear. induction l as [|x l IHl]; intro H; [cbn; lia|]. inversion H as [|? ? Hx Hl]; subst.
+    assert (1 <= length x)%nat by (destruct x; [contradiction|cbn; lia]). destruct l as [|y l]; [cbn [join length]; lia|].
+    rewrite join_cons2, !app_length. cbn [length] in *. specialize (IHl Hl). lia. }
+  specialize (G _ Hne). cbn [length] in *. lia.
+Qed.
+
+Lemma bool_tok_simple (b : bool) : simple_token (if b then TRUE_S else FALSE_S).
+Proof. destruct b; [apply simple_true|apply simple_false]. Qed.
+Theorem bool_array_round_trip xs : exists t, round_trip (JAB xs) = Some (t, RtOk (JAB xs)).
+Proof.
+  unfold round_trip. cbn [to_json]. eexists. f_equal. f_equal. unfold typed_list.
+  rewrite split_simple_array.
+  - cbn [of_ares]. rewrite (all_ok_inv read_bool (fun b : bool => if b then TRUE_S else FALSE_S)); [reflexivity|]. intros [|] _; reflexivity.
+  - apply Forall_forall. intros t Ht. apply in_map_iff in Ht as (b & <- & _). apply bool_tok_simple.
+  - apply Forall_forall. intros t Ht. apply in_map_iff in Ht as (b & <- & _). destruct b; discriminate.
+  - induction xs as [|b xs IH]; [reflexivity|]. destruct xs as [|b2 xs]; [destruct b; reflexivity|].
+    change (map (fun b0 : bool => if b0 then TRUE_S else FALSE_S) (b :: b2 :: xs)) with ((if b then TRUE_S else FALSE_S) :: map (fun b0 : bool => if b0 then TRUE_S else FALSE_S) (b2 :: xs)).
+    cbn [map] in *. rewrite join_cons2, !forallb_app, IH. destruct b; reflexivity.
+Qed.
+Theorem null_array_round_trip n : exists t, round_trip (JAN n) = Some (t, RtOk (JAN n)).
+Proof.
+  unfold round_trip. cbn [to_json]. eexists. f_equal. f_equal. unfold typed_list.
+  rewrite split_simple_array.
+  - cbn [of_ares]. assert (G : forall k, all_ok read_null (repeat NULL_S k) = RtOk (repeat tt k)).
+    { induction k as [|k IH]; [reflexivity|]. cbn [repeat all_ok]. rewrite IH. reflexivity. }
+    rewrite G, repeat_length. reflexivity.
+  - apply Forall_forall. intros t Ht. apply repeat_spec in Ht. subst. apply simple_null.
+  - apply Forall_forall. intros t Ht. apply repeat_spec in Ht. subst. discriminate.
+  - induction n as [|n IH]; [reflexivity|]. destruct n as [|n]; [reflexivity|].
+    change (repeat NULL_S (S (S n))) with (NULL_S :: repeat NULL_S (S n)). cbn [repeat] in *. rewrite join_cons2, !forallb_app, IH. reflexivity.
+Qed.
+
+Lemma read_str_written s : str_ok s = true -> read_str (34 :: s ++ [34]) = RtOk s.
+Proof.
+  intro Hs. unfold read_str.
+  assert (E : trim (34 :: s ++ [34]) = 34 :: s ++ [34]) by (apply (trim_solid_both 34 s 34); reflexivity).
+  rewrite E. unfold QUOTE. change (N.eqb 34 34) with true. cbn [andb].
+  change (34 :: s ++ [34]) with ((34 :: s) ++ [34]). rewrite ends1_last. cbn [app tl]. rewrite removelast_last. reflexivity.
+Qed.
+Lemma str_low s : str_ok s = true -> forallb (fun x => N.ltb x 128) s = true.
+Proof. intro H. apply forallb_forall. intros c Hc. destruct (str_char_facts c (proj1 (forallb_forall _ _) H c Hc)) as (_ & _ & _ & _ & Hr). apply N.ltb_lt. lia. Qed.
+Theorem string_array_round_trip xs : forallb str_ok xs = true -> exists t, round_trip (JAS xs) = Some (t, RtOk (JAS xs)).
+Proof.
+  intro H. unfold round_trip. cbn [to_json]. eexists. f_equal. f_equal. unfold typed_list.
+  rewrite split_simple_array.
+  - cbn [of_ares]. rewrite (all_ok_inv read_str (fun s => QUOTE :: s ++ [QUOTE])); [reflexivity|].
+    intros s Hs. apply read_str_written. exact (proj1 (forallb_forall _ _) H s Hs).
+  - apply Forall_forall. intros t Ht. apply in_map_iff in Ht as (s & <- & Hs). apply simple_string. exact (proj1 (forallb_forall _ _) H s Hs).
+  - apply Forall_forall. intros t Ht. apply in_map_iff in Ht as (s & <- & _). discriminate.
+  - induction xs as [|s xs IH]; [reflexivity|]. cbn [forallb] in H. apply andb_prop in H as [Hs H].
+    assert (Ht : forallb (fun x => N.ltb x 128) (QUOTE :: s ++ [QUOTE]) = true) by (cbn [forallb]; rewrite forallb_app, (str_low s Hs); reflexivity).
+    destruct xs as [|s2 xs]; [exact Ht|].
+    change (map (fun s0 => QUOTE :: s0 ++ [QUOTE]) (s :: s2 :: xs)) with ((QUOTE :: s ++ [QUOTE]) :: map (fun s0 => QUOTE :: s0 ++ [QUOTE]) (s2 :: xs)).
+    specialize (IH H). cbn [map] in *. rewrite join_cons2. rewrite (forallb_app _ (QUOTE :: s ++ [QUOTE])), Ht. rewrite forallb_app, IH. reflexivity.
+Qed.
+
+(* ---------- typed arrays of floats (the Display text: sign, digits, at most one point, no exponent) ---------- *)
+Lemma num_loop_digits : forall ds f tok pt ex mi rest, forallb is_digit ds = true -> (length ds <= f)%nat ->
+  num_loop f (ds ++ rest) tok pt ex mi = num_loop (f - length ds) rest (tok ++ ds) pt ex mi.
+Proof.
+  induction ds as [|d ds IH]; intros f tok pt ex mi rest Hd Hf.
+  - cbn [app length]. rewrite Nat.sub_0_r, app_nil_r. reflexivity.
+  - cbn [forallb] in Hd. apply andb_prop in Hd as [Hd0 Hd]. cbn [length] in Hf. destruct f as [|f]; [lia|].
+    assert (Hr : 48 <= d <= 57). { unfold is_digit in Hd0. apply andb_prop in Hd0 as [H1 H2]. apply N.leb_le in H1, H2. lia. }
+    cbn [app num_loop].
+    replace (N.leb 128 d) with false by (symmetry; apply N.leb_gt; lia).
+    replace (N.eqb d 46) with false by (symmetry; apply N.eqb_neq; lia).
+    replace (N.eqb d 101) with false by (symmetry; apply N.eqb_neq; lia).
+    replace (N.eqb d 45) with false by (symmetry; apply N.eqb_neq; lia).
+    replace (N.eqb d 32) with false by (symmetry; apply N.eqb_neq; lia).
+    cbn [andb orb]. change (is_ascii_digit d) with (is_digit d). rewrite Hd0. cbn [orb].
+    rewrite !orb_false_r. rewrite IH by (auto; lia). cbn [length]. rewrite <- app_assoc. reflexivity.
+Qed.
+Lemma num_loop_point f tok ex mi rest : num_loop (S f) (46 :: rest) tok false ex mi = num_loop f rest (tok ++ [46]) true ex mi.
+Proof. cbn [num_loop]. change (N.leb 128 46) with false. cbn. destruct ex; reflexivity. Qed.
+Lemma num_loop_stop f tok pt ex mi c' rest : (c' = 44 \/ c' = 93) -> num_loop (S f) (c' :: rest) tok pt ex mi = NOk tok c' rest false.
+Proof. intros [-> | ->]; cbn [num_loop]; destruct pt, ex, mi; reflexivity. Qed.
+
+Definition float_token (t : list N) : Prop :=
+  exists c ds1 ds2 (dot : bool), t = c :: ds1 ++ (if dot then 46 :: ds2 else []) /\ numstart c = true /\ forallb is_digit ds1 = true /\ forallb is_digit ds2 = true.
+Lemma float_token_scan t c' rest f : float_token t -> (length t <= f)%nat -> (c' = 44 \/ c' = 93) ->
+  match t with c :: body => num_loop f (body ++ c' :: rest) [c] false false (N.eqb c 45) = NOk t c' rest false | [] => True end.
+Proof.
+  intros (c & ds1 & ds2 & dot & -> & Hc & H1 & H2) Hf Hsep.
+  rewrite <- app_assoc. rewrite num_loop_digits by (auto; cbn [length] in Hf; rewrite app_length in Hf; lia).
+  cbn [length] in Hf. rewrite app_length in Hf.
+  destruct dot.
+  - cbn [app length] in *.
+    destruct (f - length ds1)%nat as [|g] eqn:Eg; [lia|]. rewrite num_loop_point.
+    rewrite num_loop_digits by (auto; lia).
+    destruct (g - length ds2)%nat as [|h] eqn:Eh; [lia|]. rewrite num_loop_stop by exact Hsep.
+    rewrite <- !app_assoc. reflexivity.
+  - cbn [app length] in *. destruct (f - length ds1)%nat as [|g] eqn:Eg; [lia|]. rewrite num_loop_stop by exact Hsep.
+    rewrite app_nil_r. reflexivity.
+Qed.
+
+(* any token the number scanner reads whole: used for the float arrays *)
+Definition num_token (t : list N) : Prop :=
+  exists c body, t = c :: body /\ numstart c = true /\
+  forall f c' rest, (length t <= f)%nat -> (c' = 44 \/ c' = 93) -> num_loop f (body ++ c' :: rest) [c] false false (N.eqb c 45) = NOk t c' rest false.
+Lemma float_num_token t : float_token t -> num_token t.
+Proof.
+  intro H. pose proof H as (c & ds1 & ds2 & dot & E & Hc & _). subst t. exists c, (ds1 ++ (if dot then 46 :: ds2 else [])). split; [reflexivity|]. split; [exact Hc|].
+  intros f c' rest Hf Hs. exact (float_token_scan _ c' rest f H Hf Hs).
+Qed.
+Lemma items_loop_num f t c' rest acc : num_token t -> (length t + length rest < f)%nat -> (c' = 44 \/ c' = 93) ->
+  items_loop (S f) (t ++ c' :: rest) acc =
+  if N.eqb c' 93 then (AOk (acc ++ [t]), rest) else items_loop f rest (acc ++ [t]).
+Proof.
+  intros (c & body & -> & Hc & Hscan) Hf Hsep. destruct (numstart_facts c Hc) as (E1 & E2 & E3 & E4 & E5 & E6). destruct (numstart_sig c Hc) as [S1 S2].
+  assert (Hr : (48 <= c <= 57) \/ c = 45).
+  { unfold numstart in Hc. apply orb_prop in Hc as [H|H]; [|apply N.eqb_eq in H; auto]. unfold is_ascii_digit in H. apply andb_prop in H as [H1 H2]. apply N.leb_le in H1, H2. auto. }
+  cbn [app items_loop]. rewrite S1.
+  replace (N.eqb c 93) with false by (symmetry; apply N.eqb_neq; lia).
+  replace (N.eqb c 32) with false by (symmetry; apply N.eqb_neq; lia).
+  unfold QUOTE. rewrite E2, E1, E5, E6, E3, E4.
+  replace (N.eqb c 44) with false by (symmetry; apply N.eqb_neq; lia).
+  unfold numstart in Hc. rewrite Hc.
+  rewrite Hscan by (auto; rewrite app_length; cbn [length] in *; lia).
+  destruct Hsep as [-> | ->].
+  - change (N.eqb 44 44) with true. cbn [negb andb orb]. change (N.eqb 44 93) with false. reflexivity.
+  - change (N.eqb 93 44) with false. change (N.eqb 93 13) with false. change (N.eqb 93 10) with false. change (is_ascii_control 93) with false.
+    cbn [negb andb orb]. change (N.eqb 93 93) with true. cbv iota.
+    destruct (is_ascii_digit c); [reflexivity|]. cbn [orb] in Hc. rewrite Hc. reflexivity.
+Qed.
+Theorem items_loop_nums : forall toks acc f, toks <> [] -> Forall num_token toks -> (length (join [44%N] toks) + 1 < f)%nat ->
+  items_loop f (join [44] toks ++ [93]) acc = (AOk (acc ++ toks), []).
+Proof.
+  induction toks as [|t toks IH]; intros acc f Hne Hall Hf; [contradiction|].
+  inversion Hall as [|? ? Ht Hrest]; subst. destruct f as [|f]; [lia|].
+  destruct toks as [|t2 toks].
+  - cbn [join] in *. change (t ++ [93]) with (t ++ 93 :: []). rewrite items_loop_num by (auto; cbn [length]; lia). reflexivity.
+  - rewrite join_cons2 in *. rewrite <- !app_assoc. change ([44] ++ join [44] (t2 :: toks) ++ [93]) with (44 :: (join [44] (t2 :: toks) ++ [93])).
+    rewrite !app_length in Hf. cbn [length] in Hf.
+    rewrite items_loop_num by (auto; rewrite app_length; cbn [length]; lia).
+    change (N.eqb 44 93) with false. cbv iota. rewrite IH by (auto; try discriminate; lia). rewrite <- app_assoc. reflexivity.
+Qed.
+
+Lemma take_digits_spec : forall s ds r, take_digits s = (ds, r) -> s = ds ++ r /\ forallb is_digit ds = true.
+Proof.
+  induction s as [|c s IH]; intros ds r H; [cbn in H; inversion H; subst; auto|].
+  cbn [take_digits] in H. destruct (is_ascii_digit c) eqn:E.
+  - destruct (take_digits s) as [a b'] eqn:Et. inversion H; subst. destruct (IH a r eq_refl) as [-> Ha]. split; [reflexivity|]. cbn [forallb]. change (is_digit c) with (is_ascii_digit c). rewrite E, Ha. reflexivity.
+  - inversion H; subst. auto.
+Qed.
+Lemma disp_float_token d : disp_ok d = true -> float_token d /\ f64_ok d = true.
+Proof.
+  destruct d as [|c body]; [discriminate|]. cbn [disp_ok]. intro H. apply andb_prop in H as [H Hf]. apply andb_prop in H as [Hc H]. split; [|exact Hf].
+  destruct (take_digits body) as [ds1 r] eqn:Et. destruct (take_digits_spec _ _ _ Et) as [-> Hd].
+  destruct r as [|x ds2].
+  - exists c, ds1, [], false. repeat split; auto.
+  - destruct (N.eqb_spec x 46) as [->|Hx].
+    + exists c, ds1, ds2, true. repeat split; auto.
+    + exfalso. destruct x as [|p]; [discriminate|]. do 6 (try destruct p as [p|p|]); try discriminate. contradiction.
+Qed.
+Lemma arr_float_ok d : disp_ok d = true -> disp_ok (arr_float d) = true.
+Proof. intro H. unfold arr_float. destruct (beqs d [48] || beqs d [45; 48]); [reflexivity|exact H]. Qed.
+Lemma float_token_low t : float_token t -> forallb (fun x => N.ltb x 128) t = true.
+Proof.
+  intros (c & ds1 & ds2 & dot & -> & Hc & H1 & H2). cbn [forallb]. destruct (numstart_sig c Hc) as [S1 _]. apply N.leb_gt in S1.
+  replace (N.ltb c 128) with true by (symmetry; apply N.ltb_lt; lia). cbn [andb].
+  assert (D : forall l, forallb is_digit l = true -> forallb (fun x => N.ltb x 128) l = true).
+  { intros l Hl. apply forallb_forall. intros x Hx. pose proof (proj1 (forallb_forall _ _) Hl x Hx) as H. unfold is_digit in H. apply andb_prop in H as [_ H]. apply N.leb_le in H. apply N.ltb_lt. lia. }
+  rewrite forallb_app, (D ds1 H1). destruct dot; [cbn [forallb]; rewrite (D ds2 H2); reflexivity|reflexivity].
+Qed.
+
+Lemma split_num_array toks : Forall num_token toks -> forallb (fun x => N.ltb x 128) (join [44] toks) = true -> split_array (arr_text toks) = AOk toks.
+Proof.
+  intros Hall Hlow. destruct toks as [|t toks]; [vm_compute; reflexivity|].
+  unfold arr_text, split_array. set (body := join [44] (t :: toks) ++ [93]).
+  assert (Hl : existsb (fun x => N.leb 128 x) ([91] ++ body) = false).
+  { apply low_no_high. unfold body. rewrite !forallb_app, Hlow. reflexivity. }
+  rewrite Hl. cbn [app open_bracket].
+  assert (Hb : body <> []) by (unfold body; destruct (join [44] (t :: toks)); discriminate).
+  destruct body as [|b0 body'] eqn:Eb; [contradiction|].
+  change (N.leb 128 91) with false. change (negb (ws1 91) && negb (N.eqb 91 91)) with false. change (N.eqb 91 91) with true. cbv iota.
+  rewrite <- Eb. unfold body. rewrite items_loop_nums; [reflexivity|discriminate|exact Hall|rewrite app_length; cbn [length]; lia].
+Qed.
+
+Theorem float_array_round_trip xs : forallb (fun x => disp_ok (snd x)) xs = true ->
+  exists t, round_trip (JAF xs) = Some (t, RtOk (JAF (map (fun x => (arr_float (snd x), arr_float (snd x))) xs))).
+Proof.
+  intro H. unfold round_trip. cbn [to_json]. eexists. f_equal. f_equal. unfold typed_list.
+  assert (Htok : forall x, In x xs -> float_token (arr_float (snd x)) /\ f64_ok (arr_float (snd x)) = true).
+  { intros x Hx. apply disp_float_token, arr_float_ok. exact (proj1 (forallb_forall _ _) H x Hx). }
+  rewrite split_num_array.
+  - cbn [of_ares]. assert (G : forall l, (forall x, In x l -> f64_ok (arr_float (snd x)) = true) ->
+      all_ok read_float (map (fun x : list N * list N => arr_float (snd x)) l) = RtOk (map (fun x => (arr_float (snd x), arr_float (snd x))) l)).
+    { induction l as [|x l IHl]; intro Hl; [reflexivity|]. cbn [map all_ok]. unfold read_float at 1. rewrite (Hl x (or_introl eq_refl)).
+      rewrite IHl by (intros y Hy; apply Hl; right; exact Hy). reflexivity. }
+    rewrite G by (intros x Hx; apply (Htok x Hx)). reflexivity.
+  - apply Forall_forall. intros t Ht. apply in_map_iff in Ht as (x & <- & Hx). apply float_num_token, (Htok x Hx).
+  - clear H. induction xs as [|x xs IH]; [reflexivity|].
+    assert (Hx : forallb (fun y => N.ltb y 128) (arr_float (snd x)) = true) by (apply float_token_low, (Htok x (or_introl eq_refl))).
+    destruct xs as [|x2 xs]; [exact Hx|].
+    specialize (IH (fun y Hy => Htok y (or_intror Hy))). cbn [map] in *. rewrite join_cons2. rewrite (forallb_app _ (arr_float (snd x))), Hx. rewrite forallb_app, IH. reflexivity.
+Qed.
